@@ -9,7 +9,7 @@ MaxSizeExceeded; reject: each of the property loops ends its fall-through arm in
 properties go through read_value (is_none guard), no transmute / unchecked UTF-8 construction is
 reachable from the decoders; frame-exhausted: every decode_packet arm returns Ok only after an emptiness test of the frame buffer that follows its last read (must-dataflow with callee summaries); frame-confinement: only the two Codec::decode bodies consume from the
 receive buffer, VersionCodec consumes nothing. Termination of the outer loop, re-encode stability and
-independence from fragmentation (C10) are not decided here. reject (continued): a NonZero identifier built from decoded bytes has its zero case mapped to an error (never kept as a silent None). nopanic (continued): the additions of the PUBLISH header-length computations are proven by an upper-bound prover (constants, type widths, From<uN> widenings, `x += c` accumulators outside loops, components of decode_variable_length's result bounded by C02.varint, closure-captured operands) instead of a reviewed entry; the slice `&src[len..]` is covered by a length test of the same value.
+independence from fragmentation (C10) are not decided here. reject (continued): a NonZero identifier built from decoded bytes has its zero case mapped to an error (never kept as a silent None). nopanic (continued): the additions of the PUBLISH header-length computations are proven by an upper-bound prover (constants, type widths, From<uN> widenings, `x += c` accumulators outside loops, components of decode_variable_length's result bounded by C02.varint, closure-captured operands) instead of a reviewed entry; the slice `&src[len..]` is covered by a length test of the same value. varint (continued): the returned expression of every accepting path of the variable-byte-integer reader equals sum((b & 0x7f) << 7k) for sample bytes.
 """
 import os
 from facts import *
